@@ -34,7 +34,7 @@ def lookup(ctx):
     src = new_doc(default=EX)
     target = src
     if path == 5:
-        target = src.bundle("ex:bb")
+        target = src.bundle("en:bb")
     made = []
     menus = MENUS[ctx.params["menu"]]
     for i in range(n):
@@ -65,7 +65,7 @@ def lookup(ctx):
         c = src.flattened()
     elif path == 6:
         holder = new_doc()
-        holder.add_bundle(src, "ex:bb")
+        holder.add_bundle(src, "en:bb")
         c = [b for b in holder.bundles][0]
     else:
         from prov.serializers.provjson import decode_json_document, encode_json_document
